@@ -234,3 +234,15 @@ prop("C05",
      rule=("cases are (tree, leaf lengths, frame type, extra calls) and (iterator length, channels, fused?, extra calls); enumerated for small trees/lengths, random beyond; "
            "non-trivial = all of them except the doc-test shapes (single from_iter / add_amp of lengths 2 and 4); distinct by hash of (tree, lengths) / iterator case"),
      stages=[{"name": "main", "build": "fast", "bin": "c05"}])
+
+prop("C08",
+     technique="runtime monitoring: ramp-valued pull-counting source (outputs reveal source index and fraction), exact-position reference model in double-double with running rounding bound (exact for dyadic ratios), exhaustion model, instrumented ratio signal",
+     level_text=("25 constant ratios (16 dyadic: exact checks; 9 non-dyadic incl. 44100/48000, pi/2, 1+-ulp, 37.7, 1e-3) x source lengths 0..=24 (quick, thinned) / 0..=64 "
+                 "(thorough, all) and infinite x {floor, linear} x frame types {f64, [f32;2], i16, [u8;2], I24, i32} x four constructors; 300 / 6 000 runs with per-output "
+                 "ratios through the setters and through mul_hz (ratio signal pulled exactly once per output); long runs (2e5 / 2e6 outputs) for drift. Per output: pulls "
+                 "== floor(P_n) (within the bound), floor output == that source frame, linear output == the straight-line blend and inside the two frames, is_exhausted() "
+                 "before every output == (source exhausted and next output needs a frame); output count law for constant ratios. Exploration: ratios and lengths are unbounded."),
+     level_note="trusted: double-double position sum; the bound accounts for the one rounded addition per output (the `-= 1.0` steps are exact); integer formats get +-1 LSB for the truncating conversion of the blend",
+     rule=("cases are (frame type, interpolator, ratio sequence, source length, constructor); non-trivial = every case except the doc-tests' ratio 0.5 / 2 over 4 frames; "
+           "distinct by hash of the case; evaluations = output frames checked"),
+     stages=[{"name": "main", "build": "fast", "bin": "c08"}])
